@@ -23,6 +23,11 @@ KEY_WRAP = "C17-u32-length-or-offset-wrap"
 KEY_GEN = "C17-generateSequences-litLength-65536-history"
 KEY_OVERRUN = "C17-nodelim-overrun-negative-lastliterals"
 KEY_PREFIX = "C17-prefix-dict-invisible-to-validation"
+KEY_PRODPOS = "C17-producer-validation-position-restarts-per-block"
+KEY_MT = "C17-compressSequences-nbworkers-null-blockstate"
+KEY_COLLECT = "C17-generateSequences-leaves-collector-armed"
+KEY_DICTHDR = "C17-validation-counts-dictionary-header"
+KEY_SESSION = "C17-compressSequences-leaves-session-open"
 INVALID = "External_sequences_are_not_valid"
 PRODFAIL = "Block-level_external_sequence_producer_returned_an_error_code"
 
@@ -92,6 +97,16 @@ def parse_seqs(s):
 
 def parse_applied(tok):
     return {k: int(v) for k, v in (kv.split("=") for kv in tok.split(","))}
+
+
+def adjust_ap(c, ap):
+    """zstd-format dictionary: the code reports the size of the whole buffer as dictSize (ds_code); the history a decoder
+    has is the content behind the header, which is what the model and the rules are given"""
+    if ap is not None and c.get("dict_hs") and "ds_code" not in ap:
+        ap = dict(ap)
+        ap["ds_code"] = ap["ds"]
+        ap["ds"] = max(0, ap["ds"] - c["dict_hs"]) if ap["ds"] else 0
+    return ap
 
 
 def lower_bound(mm, producer):
@@ -394,12 +409,14 @@ def gen_dict(rng, x, size):
 
 def make_valid_parse(rng, c, ap):
     """fill c['seqs'] with a valid parse of c['x'] for the applied parameters ap"""
-    x, dct = c["x"], (c["dict"] if c["dictmode"] != "-" else b"")
+    x, dct = c["x"], (c.get("dict_content", c["dict"]) if c["dictmode"] != "-" else b"")
     W, bs, mm = 1 << ap["wl"], ap["bs"], ap["mm"]
     minml = max(mm, 3)
     if c.get("shortml"):
         minml = 3
     pr = Parser(rng, x, dct, W, minml)
+    if c.get("dict_rep"):
+        pr.recent = list(c["dict_rep"])
     style = c.get("style") or rng.choice(STYLES)
     n = len(x)
     if c["delims"]:
@@ -444,6 +461,7 @@ def merge_py(seqs):
 
 CORRUPTIONS = ["off+1", "off-1", "off=0", "off=big", "off=max", "off=bound+1", "off=bound", "ml-1", "ml+1", "ml=0", "ml=1", "ml=2", "ml=max",
                "ll+1", "ll-1", "ll=max", "dropdelim", "dupdelim", "insdelim", "delimll+1", "delimll-1", "delimml", "droplast", "dupseq", "truncate"]
+# "off=dicthdr" (round 2) is applied to every case with a zstd-format dictionary, see derive_corruptions
 
 
 def corrupt(rng, c, ap, how):
@@ -476,6 +494,11 @@ def corrupt(rng, c, ap, how):
             off = bound + 1
         elif how == "off=bound":
             off = max(1, bound)
+        elif how == "off=dicthdr":
+            # between the end of the dictionary CONTENT and the end of the dictionary BUFFER (its header is no history)
+            if not c.get("dict_hs") or pos > W:
+                return None
+            off = bound + rng.choice([1, 1, c["dict_hs"], rng.randint(1, c["dict_hs"])])
         elif how == "ml-1":
             ml -= 1
         elif how == "ml+1":
@@ -584,9 +607,10 @@ def a_line(c):
 
 
 def model_q_line(c, ap, fixed, dec, tag=""):
-    return "Q %s%s %d %d %d 0 %d %d %d %d %d %d %d 1.4.8 %s %s" % (
+    rep = c.get("dict_rep") or (1, 4, 8)
+    return "Q %s%s %d %d %d 0 %d %d %d %d %d %d %d %d.%d.%d %s %s" % (
         c["id"], tag, ap["wl"], ap["mm"], ap["val"], ap["ds"], ap["maxnb"], 1 if fixed else 0, ap["delim"],
-        1 if ap["ers"] == 1 else 0, ap["bs"], len(c["x"]), dec or "-", seqs_str(c["seqs"]))
+        1 if ap["ers"] == 1 else 0, ap["bs"], len(c["x"]), rep[0], rep[1], rep[2], dec or "-", seqs_str(c["seqs"]))
 
 
 def parse_model_blocks(rest):
@@ -606,6 +630,9 @@ def parse_model_blocks(rest):
 def case_replay(c, extra=None):
     r = dict(kind="compressSequences", params=c["params"], dictmode=c["dictmode"], dict_hex=c["dict"].hex() if c["dictmode"] != "-" else "",
              seqs=seqs_str(c["seqs"])[:400000], input_hex=c["x"].hex()[:400000], origin=c.get("origin", ""))
+    if c.get("dict_hs"):
+        r["dict_hs"] = c["dict_hs"]
+        r["dict_rep"] = list(c.get("dict_rep") or (1, 4, 8))
     if extra:
         r.update(extra)
     return r
@@ -686,16 +713,16 @@ def run_q(env, cases, tierlabel=""):
             continue
         t = r.split(" ")
         if t[0] == "OK":
-            ap = parse_applied(t[2])
-            c["real"] = ("OK", codec.unhx(t[1]), ap, t[3] if len(t) > 3 else "")
+            ap = adjust_ap(c, parse_applied(t[2]))
+            c["real"] = ("OK", codec.unhx(t[1]), ap, t[3] if len(t) > 3 else "", t[4] if len(t) > 4 else "")
             fl = ["seqs", "w=%d" % (1 << 31)]
             if c["params"].get("format"):
                 fl.append("magicless")
-            if c["dictmode"] != "-":
+            if c["dictmode"] != "-" and not c.get("dict_hs"):
                 fl.append("rawdict")
             rcases.append((c["id"], ",".join(fl), c["dict"] if c["dictmode"] != "-" else None, c["real"][1]))
         else:
-            c["real"] = ("ERR", t[1], parse_applied(t[2]) if len(t) > 2 else None)
+            c["real"] = ("ERR", t[1], adjust_ap(c, parse_applied(t[2])) if len(t) > 2 else None)
     mres = env.codec().model(rcases) if rcases else {}
     # model, with the commit decisions read off R's trace
     mlines = []
@@ -716,6 +743,8 @@ def run_q(env, cases, tierlabel=""):
                 c["rtrace"] = fr[0]
                 dec = "".join("1" if b["type"] == 2 else "0" for b in fr[0]["blocks"] if b["rsize"] >= 7)
         mlines.append(model_q_line(c, ap, env.fixed, dec))
+        if "ds_code" in ap:         # the code's own view of the dictionary size: tells finding KEY_DICTHDR from anything else
+            mlines.append(model_q_line(c, dict(ap, ds=ap["ds_code"]), env.fixed, dec, tag="~h"))
         if not env.fixed:
             mlines.append(model_q_line(c, ap, True, dec, tag="~r"))          # the repaired rules
     mout = env.model(mlines)
@@ -746,6 +775,11 @@ def judge_q(env, c, rres, mout):
     W, D, bs = 1 << ap["wl"], ap["ds"], ap["bs"]
     lower = lower_bound(ap["mm"], False)
     wrap = has_wrap(c["seqs"])
+    hdr_key = None
+    if "ds_code" in ap and (c["id"] + "~h") in mout:
+        mirror = parse_model_blocks(mout[c["id"] + "~h"])
+        if mirror[0] != mod[0] and mirror[0] == ("OK" if real[0] == "OK" else "INVALID"):
+            hdr_key = KEY_DICTHDR      # the code follows the model given the size of the whole dictionary buffer
     sig_extra = (c.get("origin", ""), ap["delim"], ap["val"], ap["ers"], c["dictmode"] != "-", min(ap["mm"], 5))
     # ---------- memory safety / crash
     if real[0] == "CRASH" and not ap["val"] and c["expect"] != "valid":
@@ -775,7 +809,13 @@ def judge_q(env, c, rres, mout):
         ctx.count(("oob", real[0]) + sig_extra)
         return
     if mod[0] == "INVALID":
-        if real[0] == "OK":
+        if real[0] == "OK" and hdr_key:
+            env.report(case_replay(c, dict(model=str(mod), applied=ap, decode=real[3:5])), key=hdr_key,
+                       what="validateSequences=1 counts the HEADER of a zstd-format dictionary as history: dictionary of %d bytes = header %d + content %d, "
+                            "list with an offset beyond the content accepted (the model given the content size refuses at site %d, given the buffer size it "
+                            "accepts); decoding with a DDict: %s, with ZSTD_decompress_usingDict: %s"
+                            % (ap["ds_code"], c["dict_hs"], ap["ds"], mod[1], real[3], real[4] if len(real) > 4 else "?"))
+        elif real[0] == "OK":
             env.report(case_replay(c, dict(model=str(mod), applied=ap)), key=wkey,
                        what="correspondence: model rejects the list (site %d) but ZSTD_compressSequences accepted it (delims=%d validate=%d %s)"
                             % (mod[1], ap["delim"], ap["val"], c.get("origin", "")))
@@ -796,7 +836,8 @@ def judge_q(env, c, rres, mout):
         env.report(case_replay(c, dict(model=str(mod))), what="the extracted model produced no answer: %r" % (mod,), no_input=True)
     # ---------- direct oracle (property statement on the real code)
     if c["expect"] == "valid":
-        ok = real[0] == "OK" and real[3] == "d=ok" and rres and rres[0] == "OK" and rres[1] == x
+        ok = (real[0] == "OK" and real[3] == "d=ok" and rres and rres[0] == "OK" and rres[1] == x
+              and not (len(real) > 4 and real[4].startswith("u=") and real[4] != "u=ok"))
         if not ok:
             key = None
             why = "?"
@@ -808,6 +849,8 @@ def judge_q(env, c, rres, mout):
                     key = finding_key("OK")
             elif real[3] != "d=ok":
                 why = "libzstd decoding: " + real[3]
+            elif len(real) > 4 and real[4].startswith("u=") and real[4] != "u=ok":
+                why = "ZSTD_decompress_usingDict: " + real[4]
             elif not rres or rres[0] != "OK":
                 why = "R rejects the frame: %s" % (rres[1:] if rres else "?",)
             else:
@@ -821,6 +864,8 @@ def judge_q(env, c, rres, mout):
             key = None
             if wrap:
                 key = KEY_WRAP
+            elif hdr_key:
+                key = hdr_key
             else:
                 key = finding_key("INVALID")
             env.report(case_replay(c, dict(applied=ap, rule=sv, decode=real[3])), key=key,
@@ -898,6 +943,8 @@ def build_q_cases(ctx, rng, env, scale):
         pk = {k: kw.pop(k) for k in ("mm", "wlog", "mbs", "ers", "level") if k in kw}
         p = base_params(rng, delims, validate, **pk)
         d = gen_dict(rng, x, dsize) if dictmode != "-" else b""
+        if kw.get("style", 0) is None:
+            kw.pop("style")
         return cs.add(x=x, params=p, delims=delims, dict=d, dictmode=dictmode, expect="valid", origin="parser:" + kind, kind=kind, **kw)
 
     # --- corpus: boundary cases first
@@ -918,6 +965,14 @@ def build_q_cases(ctx, rng, env, scale):
         for delims in (0, 1):
             for val in (0, 1):
                 add_valid("text", 3000, delims, val, dictmode=dm, dsize=rng.choice([300, 2000]), wlog=rng.choice([10, 17]), mbs=1024)
+    # round 2: dictionaries in zstd format (header with entropy tables and three repeat offsets, then the content); the content is
+    # what a decoder has as history, the repeat offsets start the history of the first block
+    for dm in ("load", "cdict", "loadref"):
+        for delims in (0, 1):
+            for rep in (None, (5, 17, 300), (2, 3, 100)):
+                add_valid(rng.choice(["text", "rep3"]), rng.choice([600, 3000]), delims, 1, dictmode=dm, dsize=rng.choice([400, 2000]),
+                          wlog=rng.choice([10, 17]), mbs=1024, fulldict=rep or (1, 4, 8),
+                          style=dict(ml="rand", cap=40, rep_bias=True, first_hit=True) if rep else None)
     add_valid("zeros", 131072 + 5000, 0, 1, mbs=0, wlog=17, mm=4)      # match crossing the 128 KiB block edge
     add_valid("period", 131072 * 2 + 77, 0, 0, mbs=0, wlog=20, mm=3)
     add_valid("text", 140000, 1, 1, mbs=0, wlog=18, blockmode="full")
@@ -927,11 +982,49 @@ def build_q_cases(ctx, rng, env, scale):
         size = rng.choice([rng.randint(1, 64), rng.randint(64, 1500), rng.randint(1500, 7000), rng.randint(1020, 1030), rng.randint(2040, 2056)])
         dm = rng.choice(["-", "-", "-", "load", "cdict"])
         add_valid(rng.choice(kinds), size, rng.choice([0, 1]), rng.choice([0, 1, 1]), dictmode=dm, dsize=rng.choice([64, 500, 3000]),
-                  shortml=rng.random() < 0.15)
+                  shortml=rng.random() < 0.15, fulldict=((1, 4, 8) if dm != "-" and rng.random() < 0.3 else None))
     for _ in range(nmed):
         size = rng.choice([20000, 40000, 65536, 70000])
         add_valid(rng.choice(kinds), size, rng.choice([0, 1]), rng.choice([0, 1]), mbs=rng.choice([0, 1024, 4096, 65536]))
+    make_full_dicts(env, cs.cases)
     return cs.cases
+
+
+def make_full_dicts(env, cases):
+    """cases flagged fulldict=(r0,r1,r2): their raw content becomes a zstd-format dictionary (harness command D =
+    ZDICT_finalizeDictionary) whose three repeat offsets are set to the given values"""
+    todo = [c for c in cases if c.get("fulldict") and c["dictmode"] != "-" and len(c["dict"]) >= 64]
+    for c in cases:
+        if c.get("fulldict") and c not in todo:
+            c["fulldict"] = None
+    if not todo:
+        return
+    out, _ = env.impl(["D %s %s %d %d.%d.%d" % (c["id"], c["dict"].hex(), 1000 + k, c["fulldict"][0], c["fulldict"][1], c["fulldict"][2])
+                       for k, c in enumerate(todo)])
+    for c in todo:
+        t = out.get(c["id"], "").split(" ")
+        if len(t) < 3 or t[0] != "OK":
+            env.report(dict(kind="dict", content_hex=c["dict"].hex()[:4000], result=" ".join(t)[:200]),
+                       what="ZDICT_finalizeDictionary failed on a %d-byte content: %s" % (len(c["dict"]), " ".join(t)[:100]), no_input=True)
+            c["fulldict"] = None
+            continue
+        full = codec.unhx(t[1])
+        hs = int(t[2][3:])
+        c["dict_content"] = full[hs:]
+        c["dict"] = full
+        c["dict_hs"] = hs
+        c["dict_rep"] = tuple(c["fulldict"])
+        # the source starts with short copies at the dictionary's repeat offsets: first block of a frame using them as repeat codes
+        h = bytearray(c["dict_content"])
+        order = list(c["dict_rep"])
+        env_rng = random.Random(len(full) * 31 + hs)
+        env_rng.shuffle(order)
+        for r in order:
+            if env_rng.random() < 0.5:
+                h += env_rng.randbytes(1)
+            for _ in range(env_rng.randint(4, 12)):
+                h.append(h[len(h) - r])
+        c["x"] = bytes(h[len(c["dict_content"]):]) + c["x"]
 
 
 def finish_parses(env, rng, cases):
@@ -943,7 +1036,7 @@ def finish_parses(env, rng, cases):
         if not r.startswith("OK"):
             env.report(dict(kind="init", params=c["params"], result=r), what="ZSTD_CCtx_init_compressStream2 failed for an accepted parameter set: %s" % r[:100], no_input=True)
             continue
-        c["ap"] = parse_applied(r.split(" ")[1])
+        c["ap"] = adjust_ap(c, parse_applied(r.split(" ")[1]))
         if c.get("shortml") and c["ap"]["mm"] > 3:
             c["expect"] = "model"      # matches shorter than minMatch: documented as the caller's obligation; model agreement only
         make_valid_parse(rng, c, c["ap"])
@@ -956,12 +1049,14 @@ def derive_corruptions(rng, cases, per_case, idbase):
     pool = [c for c in cases if c["seqs"] and len(c["x"]) <= 8000]
     for c in pool:
         hows = rng.sample(CORRUPTIONS, min(per_case, len(CORRUPTIONS)))
+        if c.get("dict_hs"):
+            hows = ["off=dicthdr", "off=dicthdr", "off=bound"] + hows
         for how in hows:
             s = corrupt(rng, c, c["ap"], how)
             if s is None or s == c["seqs"]:
                 continue
             p = dict(c["params"])
-            if rng.random() < 0.85:
+            if rng.random() < 0.85 or how == "off=dicthdr":
                 p["validateSequences"] = 1
             d = dict(c)
             d.update(id="%s%d" % (idbase, len(res)), seqs=s, params=p, expect="corrupt" if p["validateSequences"] else "model",
@@ -1237,6 +1332,202 @@ def producer_huge_lengths(env):
         env.ctx.count(("producer-huge", t[0], p["seqProducerFallback"], p["validateSequences"]), nontrivial=True)
 
 
+def detect_producer_position(env):
+    """does validation of a producer's answer use the position of the block in the FRAME (documented rule) or restart at 0 in
+    every block (ZSTD_buildSeqStore hands the copier a fresh ZSTD_sequencePosition)?
+    Witness 1 (false rejection): 2 blocks of 1024 bytes, the second a copy of the first, answered by {0,1024,0} and
+    {off 1024, ll 0, ml 1024},{0,0,0} - a valid parse.
+    Witness 2 (false acceptance): windowLog 10, raw dictionary of 2000 bytes, block 5 (frame position 5120) answered with
+    {off 2500, ll 1000, ml 24}: the match exists, but 2500 bytes back at position 6120 is far outside the 1 KiB window."""
+    x = random.Random(17).randbytes(1024) * 2
+    sc = "S0:1024:0;S1024:0:1024,0:0:0"
+    res = {}
+    for val in (0, 1):
+        p = {"level": 1, "maxBlockSize": 1024, "windowLog": 17, "validateSequences": val, "blockSplitter": 2}
+        out, crashes = env.impl(["P w%d %s %s %s 0" % (val, codec.params_str(p), sc, x.hex())])
+        res[val] = out.get("w%d" % val, "CRASH %r" % (crashes[:1],))
+    ok0 = res[0].startswith("OK") and "d=ok" in res[0]
+    w1_fixed = res[1].startswith("OK") and "d=ok" in res[1]
+    # witness 2
+    r2 = random.Random(5)
+    dct = r2.randbytes(2000)
+    y = bytearray(r2.randbytes(6 * 1024 + 500))
+    y[5120:6120] = bytes([97 + (i * 7) % 3 for i in range(1000)])      # compressible literals: block 5 is emitted as a compressed block
+    y[6120:6144] = y[6120 - 2500:6144 - 2500]
+    sc2 = ";".join("S2500:1000:24,0:0:0" if k == 5 else ("S0:500:0" if k == 6 else "S0:1024:0") for k in range(7))
+    p2 = {"level": 1, "windowLog": 10, "maxBlockSize": 1024, "validateSequences": 1, "blockSplitter": 2}
+    out2, cr2 = env.impl(["R w2 %s load %s %s %s 0" % (codec.params_str(p2), dct.hex(), sc2, bytes(y).hex())])
+    res2 = out2.get("w2", "CRASH %r" % (cr2[:1],))
+    w2_fixed = res2.startswith("ERR " + INVALID)
+    rverdict = "-"
+    if res2.startswith("OK"):
+        m = env.codec().model([("w2", "seqs,w=%d,rawdict" % (1 << 31), dct, codec.unhx(res2.split(" ")[1]))])
+        rverdict = " ".join(str(v) for v in m.get("w2", ("?",))[:1]) if m.get("w2") and m["w2"][0] != "OK" else "OK"
+        if m.get("w2") and m["w2"][0] != "OK":
+            rverdict = "%s %s" % (m["w2"][0], m["w2"][1:3])
+    env.prodpos_fixed = w1_fixed and w2_fixed
+    env.prodpos_out = dict(w1_validate0=res[0].split(" calls=")[0][-100:], w1_validate1=" ".join(res[1].split(" ")[:2]), w2=" ".join(res2.split(" ")[:1] + res2.split(" ")[-3:-1])[:200], w2_reference_decoder=rverdict)
+    if not ok0:
+        env.report(dict(kind="producer", script=sc, input_hex=x.hex(), result=res[0][-300:]),
+                   what="producer witness without validation does not round-trip: %s" % res[0][-120:])
+    elif not env.prodpos_fixed:
+        env.report(dict(kind="producer", params={"maxBlockSize": 1024, "validateSequences": 1, "blockSplitter": 2}, script=sc, input_hex=x.hex(),
+                        observed=env.prodpos_out, witness2=dict(params=p2, dictmode="load", dict_hex=dct.hex(), script=sc2, input_hex=bytes(y).hex())),
+                   key=KEY_PRODPOS,
+                   what="validation of a registered producer's answer restarts its position at 0 in every block (ZSTD_buildSeqStore: ZSTD_sequencePosition "
+                        "{0,0,0}), so ZSTD_validateSequence compares offsets with the position inside the BLOCK: (1) a VALID parse is refused as soon as a "
+                        "match reaches into an earlier block [block 1 = {off 1024, ll 0, ml 1024} over a copy of block 0: %s; round-trips with validateSequences=0]%s"
+                        % (" ".join(res[1].split(" ")[:2]) if not w1_fixed else "accepted",
+                           "; (2) with a dictionary an offset far outside the window is ACCEPTED [windowLog 10, 2000-byte dictionary, {off 2500, ll 1000, ml 24} "
+                           "at frame position 5120: %s, reference decoder: %s]" % (res2.split(" ")[0], rverdict) if not w2_fixed else ""))
+    return env.prodpos_fixed
+
+
+def run_context_histories(env, rng, n):
+    """round 2: what the copiers and the collector read from the CONTEXT rather than from their arguments.
+    (a) ZSTD_c_nbWorkers >= 1: a source above the multithreading threshold makes the transparent initialisation take the
+        multithreaded branch, which does not prepare the block state ZSTD_compressSequences uses: must round-trip or be refused;
+    (b) ZSTD_generateSequences followed by ZSTD_compress2 on the same context: the caller's array must not be written again and
+        the frame must be the one a fresh context produces;
+    (c) two ZSTD_compressSequences calls on one context (the first one failing at a random point, or succeeding): the second
+        must return exactly what a fresh context returns, and a ZSTD_compress2 after it as well."""
+    ctx = env.ctx
+    # ---- (a)
+    unit = bytes(range(97, 113))
+    lines, meta = [], {}
+    for i, (nw, size, delims) in enumerate([(1, 600 * 1024, 0), (1, 600 * 1024, 1), (2, 524288 + 1, 0), (1, 524288, 0), (1, 3000, 1)]):
+        x = (unit * (size // 16 + 1))[:size]
+        p = {"nbWorkers": nw, "blockDelimiters": delims, "validateSequences": 1, "windowLog": 20}
+        if delims:
+            seqs, pos = [], 0
+            while pos < size:
+                sz = min(131072, size - pos)
+                seqs += [(16, 16, sz - 16), (0, 0, 0)] if pos == 0 else [(16, 0, sz), (0, 0, 0)]
+                pos += sz
+        else:
+            seqs = [(16, 16, size - 16)]
+        c = dict(id="mt%d" % i, x=x, params=p, dictmode="-", dict=b"", seqs=seqs, origin="parser:nbWorkers")
+        meta[c["id"]] = c
+        lines.append(q_line(c))
+    out, crashes = env.impl(lines)
+    for i, rc, err in crashes:
+        c = meta.get(i)
+        if c:
+            env.report(dict(kind="compressSequences", params=c["params"], dictmode="-", dict_hex="", seqs=seqs_str(c["seqs"]), input_len=len(c["x"]),
+                            input_unit_hex=unit.hex(), rc=rc, stderr=str(err)[-600:]), key=KEY_MT,
+                       what="ZSTD_compressSequences with ZSTD_c_nbWorkers=%d on a valid parse of %d bytes crashed (status %s): above ZSTDMT_JOBSIZE_MIN the "
+                            "initialisation takes the multithreaded branch and leaves blockState / seqStore / blockSize of the context unset: %s"
+                            % (c["params"]["nbWorkers"], len(c["x"]), rc, str(err)[-200:].replace("\n", " ")))
+    for i, c in meta.items():
+        r = out.get(i)
+        if r is None:
+            continue
+        t = r.split(" ")
+        if t[0] == "OK" and "d=ok" in t:
+            ctx.count(("ctx", "nbWorkers", "roundtrip", len(c["x"]) > 524288), nontrivial=True)
+        elif t[0] == "ERR" and t[1].startswith("Unsupported"):
+            ctx.count(("ctx", "nbWorkers", "refused", len(c["x"]) > 524288), nontrivial=True)     # a clean, documented refusal
+        else:
+            env.report(dict(kind="compressSequences", params=c["params"], seqs=seqs_str(c["seqs"])[:2000], input_len=len(c["x"]), input_unit_hex=unit.hex(),
+                            result=" ".join(t[:1] + t[2:])[-300:]), key=KEY_MT,
+                       what="ZSTD_compressSequences with nbWorkers=%d on a valid parse of %d bytes: %s" % (c["params"]["nbWorkers"], len(c["x"]), " ".join(t[:2])[:120]))
+    # ---- (b)
+    lines, meta = [], {}
+    for i in range(max(3, n // 4)):
+        kind = rng.choice(["text", "rep3", "period", "mixed"])
+        x = codec.gen_input(rng, kind, rng.choice([100, 4000, 20000, 140000]))
+        p = {"level": rng.choice([1, 3, 7])}
+        if rng.random() < 0.4:
+            p["maxBlockSize"] = rng.choice([1024, 4096])
+        meta["kc%d" % i] = (p, x)
+        lines.append("K kc%d %s %s" % (i, codec.params_str(p), codec.hx(x)))
+    out, crashes = env.impl(lines)
+    for i, rc, err in crashes:
+        p, x = meta.get(i, ({}, b""))
+        env.report(dict(kind="generate-then-compress2", params=p, input_hex=x.hex()[:200000], rc=rc, stderr=str(err)[-600:]), key=KEY_COLLECT,
+                   what="ZSTD_compress2 after ZSTD_generateSequences on the same context crashed: %s" % str(err)[-200:].replace("\n", " "))
+    for i, (p, x) in meta.items():
+        r = out.get(i)
+        if r is None:
+            continue
+        kv = dict(q.split("=", 1) for q in r.split(" ")[1:] if "=" in q)
+        if kv.get("gen", "E").startswith("E"):
+            ctx.count(("ctx", "collector", "generate-refused"), nontrivial=False)
+            continue
+        if kv.get("sentinel") != "intact" or kv.get("same") != "1" or kv.get("d") != "ok":
+            env.report(dict(kind="generate-then-compress2", params=p, input_hex=x.hex()[:200000], result=r[:300]), key=KEY_COLLECT,
+                       what="after ZSTD_generateSequences the context keeps collecting: a later ZSTD_compress2 on it %s and returns %s bytes where a fresh "
+                            "context returns %s (seqCollector.collectSequences is never cleared)"
+                            % ("writes into the caller's old sequence array (entry %s)" % kv.get("sentinel", "?").split("@")[-1]
+                               if kv.get("sentinel") != "intact" else "leaves the array alone", kv.get("c2"), kv.get("fresh")))
+        else:
+            ctx.count(("ctx", "collector", "clean"), nontrivial=True)
+    # ---- (c)
+    lines, meta = [], {}
+    for i in range(n):
+        kind = rng.choice(["text", "rep3", "period", "zeros"])
+        delims = rng.choice([0, 1])
+        val = rng.choice([0, 1, 1])
+        p = base_params(rng, delims, val, mbs=rng.choice([0, 1024]), wlog=rng.choice([10, 17]))
+        dm = rng.choice(["-", "-", "load", "cdict"])
+        cs = []
+        for j in range(2):
+            x = codec.gen_input(rng, kind, rng.choice([0, 5, 300, 2500, 5000]))
+            d = gen_dict(rng, x, 300) if dm != "-" else b""
+            cs.append(dict(id="zc%d.%d" % (i, j), x=x, params=p, delims=delims, dict=d, dictmode=dm, expect="valid"))
+        cs[1]["dict"] = cs[0]["dict"]
+        meta["zc%d" % i] = cs
+    al = [a_line(c) for cs in meta.values() for c in cs]
+    aout, _ = env.impl(al)
+    for i, cs in meta.items():
+        okc = True
+        for c in cs:
+            r = aout.get(c["id"], "")
+            if not r.startswith("OK"):
+                okc = False
+                break
+            c["ap"] = parse_applied(r.split(" ")[1])
+            make_valid_parse(rng, c, c["ap"])
+        if not okc:
+            continue
+        first = cs[0]
+        how = rng.choice(["valid", "valid"] + CORRUPTIONS)
+        first["how"] = how
+        if how != "valid":
+            s1 = corrupt(rng, first, first["ap"], how)
+            if s1 is not None:
+                first["seqs"] = s1
+        lines.append("Z %s %s %s %s %s %s %s %s" % (i, codec.params_str(first["params"]), first["dictmode"], codec.hx(first["dict"]) if first["dictmode"] != "-" else "-",
+                                                   seqs_str(first["seqs"]), codec.hx(first["x"]), seqs_str(cs[1]["seqs"]), codec.hx(cs[1]["x"])))
+    out, crashes = env.impl(lines)
+    crashed = {i: (rc, err) for i, rc, err in crashes}
+    session_open = 0
+    for i, cs in meta.items():
+        if "ap" not in cs[1] or "how" not in cs[0]:
+            continue
+        rp = dict(kind="history", params=cs[0]["params"], dictmode=cs[0]["dictmode"], dict_hex=cs[0]["dict"].hex(), first_seqs=seqs_str(cs[0]["seqs"])[:100000],
+                  first_input_hex=cs[0]["x"].hex(), second_seqs=seqs_str(cs[1]["seqs"])[:100000], second_input_hex=cs[1]["x"].hex(), first_corruption=cs[0]["how"])
+        if i in crashed:
+            if cs[0]["params"].get("validateSequences") or cs[0]["how"] == "valid":
+                env.report(dict(rp, stderr=crashed[i][1][-600:]), what="two ZSTD_compressSequences calls on one context crashed: %s" % crashed[i][1][-200:].replace("\n", " "))
+            continue
+        r = out.get(i)
+        if r is None:
+            continue
+        kv = dict(q.split("=", 1) for q in r.split(" ")[1:] if "=" in q)
+        first_failed = kv.get("r1", "").startswith("E")
+        if kv.get("r2same") != "1" or (not kv.get("r2", "E").startswith("E") and kv.get("d2d") != "ok") or kv.get("r2", "E").startswith("E"):
+            env.report(dict(rp, result=r[:400]), what="ZSTD_compressSequences of a valid parse after a %s call on the same context differs from a fresh context: %s"
+                       % ("failed" if first_failed else "successful", r[:200]))
+        elif kv.get("c2same") != "1":
+            env.report(dict(rp, result=r[:400]), what="ZSTD_compress2 after two ZSTD_compressSequences calls on the same context differs from a fresh context: %s" % r[:200])
+        else:
+            ctx.count(("ctx", "history", "failed-first" if first_failed else "ok-first", cs[0]["dictmode"] != "-", cs[0]["delims"]), nontrivial=True)
+        if kv.get("setp", "ok") != "ok":
+            session_open += 1
+    ctx.notes["session_left_open_after_compressSequences"] = session_open
+
+
 def run_producer(env, rng, n):
     ctx = env.ctx
     cases = []
@@ -1403,6 +1694,10 @@ def run_producer(env, rng, n):
             mlines.append("P %s.%d %d %d %d 0 %d %d %d %d %s %d %d %d.%d.%d %s" % (
                 c["id"], k, ap["wl"], ap["mm"], ap["val"], ap["maxnb"], 1 if env.fixed else 0, 1 if ap["ers"] == 1 else 0, c["fb"],
                 nbs, cap, srcsz, rep[0], rep[1], rep[2], seqs_str(buf)))
+            # the same block at its position in the frame (every block before it is a full block: splitter disabled, one-shot call)
+            mlines.append("PA %s.%d~a %d %d %d 0 %d %d %d %d %s %d %d %d.%d.%d %d %s" % (
+                c["id"], k, ap["wl"], ap["mm"], ap["val"], ap["maxnb"], 1 if env.fixed else 0, 1 if ap["ers"] == 1 else 0, c["fb"],
+                nbs, cap, srcsz, rep[0], rep[1], rep[2], sum(q[0] for q in calls[:k]), seqs_str(buf)))
     mout = env.model(mlines)
     for c in cases:
         if "calls" not in c:
@@ -1422,6 +1717,14 @@ def judge_producer(env, c, mout, rres):
     expect_fail = None
     for k, (srcsz, cap, wsz) in enumerate(calls):
         v = mout.get("%s.%d" % (c["id"], k), "MISSING").split(" ")
+        va = mout.get("%s.%d~a" % (c["id"], k), "MISSING").split(" ")
+        if getattr(env, "prodpos_fixed", False):
+            v = va          # the code validates at the position in the frame
+        elif v[0] == "FAILINVALID" and va[0] == "STORE" and k < len(c["plan"]) and c["plan"][k][3] and c["plan"][k][0] == "seqs":
+            # direct oracle: a valid parse from the producer must be accepted; the code (and its mirror, position 0) refuses it
+            env.report(dict(rp, failing_call=k, block_position=sum(q[0] for q in calls[:k])), key=KEY_PRODPOS,
+                       what="producer answer %d is a valid parse (accepted by the model at the block's position %d in the frame) but validation, restarted "
+                            "at position 0 for the block, refuses it: %s" % (k, sum(q[0] for q in calls[:k]), " ".join(t[:2])))
         verdicts.append(v[0])
         if wsz != 1 << ap["wl"]:
             env.report(rp, what="producer was handed windowSize %d, applied windowLog is %d" % (wsz, ap["wl"]))
@@ -1503,6 +1806,10 @@ def replay(env, ctx):
     c = dict(id="r0", x=bytes.fromhex(rp.get("input_hex", "")), params=rp["params"], dictmode=rp.get("dictmode", "-"),
              dict=bytes.fromhex(rp.get("dict_hex", "")), seqs=parse_seqs(rp.get("seqs", "-")), expect="model", origin="replay:" + rp.get("origin", ""))
     c["delims"] = c["params"].get("blockDelimiters", 0)
+    if rp.get("dict_hs"):
+        c["dict_hs"] = rp["dict_hs"]
+        c["dict_rep"] = tuple(rp.get("dict_rep") or (1, 4, 8))
+        c["dict_content"] = c["dict"][c["dict_hs"]:]
     o = rp.get("origin", "")
     if o.startswith("parser") or o.startswith("generateSequences"):
         c["expect"] = "valid"
@@ -1510,7 +1817,7 @@ def replay(env, ctx):
         c["expect"] = "corrupt"
     out, _ = env.impl([a_line(c)])
     if out.get("r0", "").startswith("OK"):
-        c["ap"] = parse_applied(out["r0"].split(" ")[1])
+        c["ap"] = adjust_ap(c, parse_applied(out["r0"].split(" ")[1]))
     run_q(env, [c])
     core.log("replay: real result %s" % (str(c.get("real"))[:300],))
     return True
@@ -1550,7 +1857,9 @@ def run(ctx):
     gq = run_generate(env, rng, 12 if quick else 100)
     run_q(env, gq)
     producer_huge_lengths(env)
+    detect_producer_position(env)
     run_producer(env, rng, 60 if quick else 600)
+    run_context_histories(env, rng, 24 if quick else 200)
     ctx.notes["origins"] = {}
     for c in cases + cor + gq:
         o = c.get("origin", "?").split(":")[0]
